@@ -59,6 +59,81 @@ def transform(node, rng, p_ins=0.5, p_perm=0.5, p_large=0.25, p_pad=0.4):
     return n
 
 
+FRAG_ITER = {b"moof", b"traf"}
+FRAG_LARGE = {b"moof", b"traf", b"mfhd", b"tfhd", b"tfdt", b"trun", b"free"}
+
+
+def transform_moof(node, rng):
+    """a layout variant of a movie fragment box: children of moof / traf in any order (same-typed children keep their order), junk boxes inserted,
+    64-bit size headers on any box"""
+    if not isinstance(node, isogen.Box):
+        return node
+    n = isogen.Box(node.typ, [transform_moof(i, rng) for i in node.items], node.large, node.pad)
+    if n.typ in FRAG_ITER:
+        kids = n.items
+        if rng.random() < 0.7:
+            order = list(range(len(kids)))
+            rng.shuffle(order)
+            by_type = {}
+            for k in kids:
+                by_type.setdefault(k.typ if isinstance(k, isogen.Box) else None, []).append(k)
+            kids = [by_type[kids[i].typ if isinstance(kids[i], isogen.Box) else None].pop(0) for i in order]
+        if rng.random() < 0.5:
+            for _ in range(rng.randint(1, 2)):
+                kids.insert(rng.randint(0, len(kids)), junk(rng))
+        n.items = kids
+    if n.typ in FRAG_LARGE and rng.random() < 0.25:
+        n.large = True
+    return n
+
+
+def fragmented_groups(rng, ngroups, nvar):
+    """layout variants of fragmented movies: (label, case dict) lists; the first of each group is the base layout"""
+    groups = []
+    bases = ["moof", "explicit", "explicit_end"]
+    for g in range(ngroups):
+        ntr = rng.choice([1, 2])
+        tracks = [{"id": j + 1, "kind": rng.choice(["avc", "aac"]), "ts": 1000} for j in range(ntr)]
+        clock = {t["id"]: 0 for t in tracks}
+        cnt = {t["id"]: 1 for t in tracks}
+        frags = []
+        for f in range(rng.randint(1, 3)):
+            fr = []
+            for t in rng.sample(tracks, rng.randint(1, ntr)):
+                k = rng.choice([1, 2, 3])
+                per = rng.random() < 0.5
+                tf = {"track_id": t["id"], "base": rng.choice(bases), "tfhd_dur": rng.choice([None, 20]), "tfdt": clock[t["id"]], "tfdt_v": rng.choice([0, 1]),
+                      "durations": [rng.choice([1, 33]) for _ in range(k)] if per else None, "sizes": [rng.choice([1, 2, 9]) for _ in range(k)],
+                      "cts": [rng.choice([0, 7, -7]) for _ in range(k)] if rng.random() < 0.5 else None, "k0": cnt[t["id"]], "moof_flag": rng.random() < 0.3}
+                clock[t["id"]] += sum(tf["durations"]) if per else k * (tf["tfhd_dur"] if tf["tfhd_dur"] is not None else 10)
+                cnt[t["id"]] += k
+                fr.append(tf)
+            frags.append(fr)
+        variants = []
+        for v in range(nvar):
+            seed = rng.randrange(1 << 30)
+            tfm = None if v == 0 else (lambda box, fi, seed=seed: transform_moof(box, random.Random(seed * 131 + fi)))
+            init, fin = isogen.build_fragmented(copy.deepcopy(tracks), copy.deepcopy(frags), trex_dur=10, moof_transform=tfm,
+                                                extra_between=([] if v % 2 == 0 else [junk(random.Random(seed))]))
+            m1, _ = fin(len(init))
+            m0, _ = fin(0)
+            variants.append(("f%d.v%d.single" % (g, v), {"data": init + m1}))
+            variants.append(("f%d.v%d.segment" % (g, v), {"data": init, "frag": m0}))
+        groups.append(variants)
+    return groups
+
+
+def logical_frag(impl):
+    """fragmented variants: everything except absolute offsets (the bytes read_sample returns pin the offsets) and the size"""
+    def strip(d):
+        return {"open": d.get("open"), "open_frag": d.get("open_frag"), "acc": {k: v for k, v in d.get("acc", {}).items() if k != "size"}, "tracks": d.get("tracks"),
+                "calls": [c for c in d.get("calls", []) if c[0] != "off"]}
+    out = strip(impl)
+    if isinstance(impl.get("frag"), dict):
+        out["frag"] = strip(impl["frag"])
+    return out
+
+
 def logical(impl, payload_start):
     """what must be invariant: everything except absolute offsets, which are made relative to the mdat payload"""
     d = {"open": impl.get("open"), "acc": {k: v for k, v in impl.get("acc", {}).items() if k != "size"}, "tracks": impl.get("tracks"), "meta": impl.get("meta")}
@@ -130,10 +205,41 @@ def check(rep):
                 ties.append(("model_vs_impl_%s_%d" % (profile, len(ties)), dict(t, kind="correspondence", case=lab, profile=profile, file=d.hex())))
             if profile == "debug":
                 stats["open_ok"] += 1 if impl.get("open") == "ok" else 0
-    rep.coverage.update({"evaluations": 2 * len(flat), "distinct_nontrivial": len(set(d for _, _, _, d, _ in flat)),
+    # ---- fragmented movies: layout variants of the movie fragment boxes
+    fgroups = fragmented_groups(rng, 12 if quick else 120, 4 if quick else 6)
+    fflat = [(gi, vi, lab, c) for gi, vs in enumerate(fgroups) for vi, (lab, c) in enumerate(vs)]
+    stats["fragmented_movies"] = len(fgroups)
+    stats["fragmented_variants"] = len(fflat)
+    for profile in ("debug", "release"):
+        res = readcheck.run_both([c for _, _, _, c in fflat], profile)
+        base = {}
+        for (gi, vi, lab, c), (impl, model) in zip(fflat, res):
+            kind = lab.rsplit(".", 1)[1]
+            if "dead" in impl:
+                fails.append(("dead_%d" % len(fails), {"kind": "input", "what": "worker died", "case": lab, "file": c["data"].hex(), "frag": c.get("frag", b"").hex()}))
+                continue
+            lg = logical_frag(impl)
+            if vi < 2:
+                base[(gi, kind)] = (lg, lab, c)
+                if impl.get("open") != "ok" or (kind == "segment" and impl.get("open_frag") != "ok"):
+                    fails.append(("fbase_%d" % len(fails), {"kind": "input", "what": "base layout of a fragmented movie does not open (%s / %s)" % (impl.get("open"), impl.get("open_frag")),
+                                                            "case": lab, "file": c["data"].hex(), "frag": c.get("frag", b"").hex()}))
+            elif (gi, kind) in base and lg != base[(gi, kind)][0]:
+                b = base[(gi, kind)][0]
+                key = next(k for k in b if b.get(k) != lg.get(k))
+                fails.append(("frag_layout_%s_%d" % (profile, len(fails)), {"kind": "input", "what": "layout variant of a fragmented movie differs from the base layout in %s" % key,
+                                                                            "case": lab, "base_case": base[(gi, kind)][1], "profile": profile, "file": c["data"].hex(), "frag": c.get("frag", b"").hex(),
+                                                                            "base_file": base[(gi, kind)][2]["data"].hex(), "base_frag": base[(gi, kind)][2].get("frag", b"").hex()}))
+            t = readcheck.correspondence(impl, model)
+            if t == "skipped":
+                stats["model_skipped"] += 1
+            elif t:
+                ties.append(("model_vs_impl_%s_%d" % (profile, len(ties)), dict(t, kind="correspondence", case=lab, profile=profile, file=c["data"].hex(), frag=c.get("frag", b"").hex())))
+    rep.coverage.update({"evaluations": 2 * (len(flat) + len(fflat)), "distinct_nontrivial": len(set(d for _, _, _, d, _ in flat)),
                          "rule": "logical movies from the C03 generator (1-2 tracks, all kinds, with/without metadata) x layout variants: media data before/after the movie header, 32- or 64-bit size header on the media data box, "
                                  "free/unknown boxes (32- and 64-bit headers) inserted at the top level and at random positions inside moov/trak/mdia/minf/stbl/udta/mvex, siblings of "
-                                 "different types shuffled, 64-bit size headers on any box, spare bytes after fixed-layout and table boxes; every variant compared with the base layout",
+                                 "different types shuffled, 64-bit size headers on any box, spare bytes after fixed-layout and table boxes; fragmented movies (1-2 tracks, 1-3 fragments, three base modes) with the children of "
+                                 "moof / traf in any order, junk boxes inserted, 64-bit headers on moof/traf/mfhd/tfhd/tfdt/trun, junk between fragments, as one stream and as init + media segment; every variant compared with the base layout",
                          "input_distribution": stats})
     rep.coverage["samples"] = [{"case": flat[i][2], "file": flat[i][3].hex()[:200]} for i in (1, len(flat) // 2)]
     rep.assumptions = ["gen/isogen.py renders the same logical movie in every variant (a generator slip shows as a failing case)", "harness/run is the compiled /repo library"]
